@@ -199,6 +199,15 @@ func (r *pedRun) run() {
 					b.Deals[k].EncryptedShare = flipBits(t, b.Deals[k].EncryptedShare, "cf."+n.name)
 				} else {
 					wrong, _ := r.g.Scalar().Pick(xofStream([]byte("wrong" + n.name))).MarshalBinary()
+					// sometimes a plaintext that authenticates and decrypts but is no scalar encoding at all
+					// (one byte short, empty): still just an invalid share - a complaint, never a private
+					// verdict of the addressee alone
+					switch rapid.IntRange(0, 5).Draw(t, "plainshape."+n.name) {
+					case 0:
+						wrong = wrong[:len(wrong)-1]
+					case 1:
+						wrong = []byte{}
+					}
 					b.Deals[k].EncryptedShare, _ = ecies.Encrypt(r.suite, h.pub, wrong, sha256.New)
 				}
 				if r.victims[n.oidx] == nil {
